@@ -412,8 +412,9 @@ def run(ctx):
                 'every goal (c). Distinct by content hash.')
     ctx.assumptions += ['F2 theorems are about real arithmetic (floats tied by 1e-9 interval goals)',
                         'F3 identities assume the inner linear solve exact',
-                        'EigenSolve, OverhangFilter, Inverse/LinSolve/SystemOfEquations/StaticCondensation VALUES, MathGeneral (sympy absent) and AutoMod (jax absent): '
-                        'sensitivities are covered by the implementation-side oracle sweep only (testing), MathGeneral/AutoMod cannot run here',
+                        'differentiable dependence of a simple eigenpair on (A, B) (implicit function theorem) is not proved: EigenSolve theorems (C01d) are the adjoint '
+                        'identity of the linearised eigenproblem; Inverse/LinSolve/SystemOfEquations/StaticCondensation VALUES enter through C05-C07; MathGeneral (sympy absent) '
+                        'and AutoMod (jax absent) cannot run here',
                         'F1 models (triple lists) are obtained from the implementation by probing on every run (the tie), not written by hand']
     ctx.trusted += ['Print Assumptions: stdlib real-number axioms (ClassicalDedekindReals.sig_forall_dec, sig_not_dec, Classical_Prop.classic, '
                     'FunctionalExtensionality.functional_extensionality_dep) for the F2 theorems and interval goals; '
